@@ -80,7 +80,7 @@ def mutants(props):
                 rows.append((prop, os.path.basename(patch), 'PATCH-FAILED'))
                 shutil.rmtree(scratch, ignore_errors=True)
                 continue
-            env = dict(os.environ, VERIF_TREE=scratch, VERIF_EVIDENCE_DIR=scratch + '/evidence', VERIF_REPLAY_DIR=scratch + '/replays')
+            env = dict(os.environ, VERIF_TREE=scratch, VERIF_EVIDENCE_DIR=scratch + '/evidence', VERIF_REPLAY_DIR=scratch + '/replays', VERIF_STOP_FIRST='1', VERIF_NO_SHRINK='1')
             p = subprocess.run([os.path.join(root, 'verif'), 'check', prop, '--tier', 'quick'], env=env, capture_output=True, text=True)
             caught = f'VIOLATION property={prop}' in p.stdout
             rows.append((prop, os.path.basename(patch), 'caught' if caught else f'MISSED rc={p.returncode}'))
